@@ -19,10 +19,13 @@ ASSUMPTIONS = ['CachedMethods compatibility shim', 'RDKit canonical isomeric SMI
 CONFIG = {
     'quick': {'shards': 16, 'budget_s': 120, 'n_corpus': 800, 'k_renum': 2,
               'floors': {'evaluations': 5000, 'distinct_nontrivial': 1200, 'to_rdkit.compared': 2500, 'from_rdkit.compared': 700,
-                         'roundtrip.compared': 2500, 'stereo.labels-roundtripped': 1500}},
+                         'roundtrip.compared': 2500, 'stereo.labels-roundtripped': 1500, 'from_rdkit.explicit-h.all-hydrogens': 120,
+                         'from_rdkit.explicit-h.deuterium-on-centre': 120, 'from_rdkit.explicit-h.position-0': 10,
+                         'from_rdkit.explicit-h.position-2': 60}},
     'thorough': {'shards': 16, 'budget_s': 1500, 'n_corpus': 4200, 'k_renum': 8,
                  'floors': {'evaluations': 80000, 'distinct_nontrivial': 8000, 'to_rdkit.compared': 30000, 'from_rdkit.compared': 4000,
-                            'roundtrip.compared': 30000, 'stereo.labels-roundtripped': 15000}},
+                            'roundtrip.compared': 30000, 'stereo.labels-roundtripped': 15000, 'from_rdkit.explicit-h.all-hydrogens': 600,
+                            'from_rdkit.explicit-h.deuterium-on-centre': 600}},
 }
 
 
@@ -182,6 +185,64 @@ def from_text(ctx, text, rng):
         ctx.violation('from_rdkit-%s-differs' % part, '%s: %s' % (text, d[:3]), {'smiles': text, 'form': 'from-text'})
 
 
+def explicit_hydrogens(ctx, text, rng):
+    """RDKit molecules that carry hydrogens as atoms (AddHs, deuterium on a stereocentre) in a random atom order, so that the
+    hydrogen stands at any position among the neighbours of a stereocentre; judged by RDKit's canonical SMILES of the converted
+    molecule's canonical SMILES against RDKit's canonical SMILES of the source"""
+    from rdkit import Chem
+    rd = Chem.MolFromSmiles(text)
+    if rd is None or not any(a.GetChiralTag() != Chem.ChiralType.CHI_UNSPECIFIED for a in rd.GetAtoms()):
+        return
+    if any(a.GetChiralTag() != Chem.ChiralType.CHI_UNSPECIFIED and a.GetSymbol() != 'C' for a in rd.GetAtoms()):
+        return
+    try:
+        probe = smiles(text)
+        probe.kekule()
+        probe.thiele()
+    except Exception:
+        return
+    if has_unsupported(probe) or SY.has_equivalent_substituents(probe) or T.ring_diene_ct(probe):
+        return
+    for variant in ('all-hydrogens', 'deuterium-on-centre'):
+        rh = Chem.AddHs(rd)
+        if variant == 'deuterium-on-centre':
+            cents = [a for a in rh.GetAtoms() if a.GetChiralTag() != Chem.ChiralType.CHI_UNSPECIFIED and
+                     any(n.GetAtomicNum() == 1 for n in a.GetNeighbors())]
+            if not cents:
+                continue
+            h = next(n for n in rng.choice(cents).GetNeighbors() if n.GetAtomicNum() == 1)
+            h.SetIsotope(rng.choice((2, 3)))
+            rh = Chem.RemoveHs(rh)          # keeps the isotopic hydrogen as an atom
+        # a random spelling read back with the hydrogens kept as atoms puts them at every position of the neighbour lists
+        params = Chem.SmilesParserParams()
+        params.removeHs = False
+        spelled = Chem.MolToSmiles(rh, doRandom=True, canonical=False)
+        rh = Chem.MolFromSmiles(spelled, params)
+        if rh is None:
+            continue
+        perm = spelled
+        for a in rh.GetAtoms():
+            if a.GetChiralTag() != Chem.ChiralType.CHI_UNSPECIFIED:
+                hp = [i for i, n in enumerate(a.GetNeighbors()) if n.GetAtomicNum() == 1]
+                if hp:
+                    ctx.count('from_rdkit.explicit-h.position-%d' % hp[0])
+        want = Chem.MolToSmiles(Chem.RemoveHs(rh))
+        ctx.evaluations += 1
+        w = {'smiles': text, 'form': 'explicit-h/' + variant}
+        try:
+            got = from_rdkit_molecule(rh)
+            out = str(got)
+        except Exception as e:
+            ctx.violation('from_rdkit-raises/%s' % type(e).__name__, '%s (%s): %r' % (text, variant, e), w)
+            continue
+        ctx.count('from_rdkit.explicit-h.' + variant)
+        back = Chem.MolFromSmiles(out)
+        have = Chem.MolToSmiles(back) if back is not None else None
+        if have != want:
+            ctx.violation('from_rdkit-configuration-differs/explicit-hydrogen', '%s as %s in atom order %s...: library %s = %s, RDKit %s' % (
+                text, variant, perm[:60], out, have, want), w)
+
+
 def worker(ctx):
     cfg = CONFIG[ctx.tier]
     rng = ctx.rng
@@ -227,6 +288,7 @@ def worker(ctx):
         except Exception:
             pass
         from_text(ctx, s, rng)
+        explicit_hydrogens(ctx, s, rng)
         for form, mol in (('aromatic', m), ('kekule', k)):
             check(ctx, mol, s, ref, rng, form)
             for _ in range(cfg['k_renum']):
